@@ -380,9 +380,13 @@ def _gen_alleles(rng, gene, opts):
         cand.append((f,))
     if opts.get("ambiguous") and len(func) >= 2:
         a, b = rng.sample(func, 2)
-        cand.insert(min(len(cand), 2), tuple(sorted((a, b))))
-        # make sure both singles are in front
-        cand = [(a,), (b,)] + [c for c in cand if c not in ((a,), (b,))]
+        if opts["ambiguous"] == "mnp" and any(vs[k]["kind"] == "mnp" for k in func):
+            # one of the pair is a multi-nucleotide substitution, the other its nearest core neighbour
+            a = rng.choice([k for k in func if vs[k]["kind"] == "mnp"])
+            b = min((k for k in func if k != a), key=lambda k: abs(vs[k]["g"] - vs[a]["g"]))
+        # both singles and their combination come first (so that all three get an allele)
+        comb = tuple(sorted((a, b)))
+        cand = [(a,), (b,), comb] + [c for c in cand if c not in ((a,), (b,), comb)]
     else:
         for _ in range(len(func)):
             k = rng.randint(2, min(3, len(func))) if len(func) >= 2 else 1
